@@ -41,6 +41,8 @@ def make_A(case):
     rng = np.random.default_rng(case["seed"])
     n, m, cplx = case["n"], max(case["m"], case["n"]), case["cplx"]
     kind = case["A"]
+    if kind == "identity":
+        return np.eye(n) + (0j if cplx else 0)
     if kind == "spectrum":
         U = _unitary(rng, m, cplx)[:, :n]
         V = _unitary(rng, n, cplx)
@@ -189,8 +191,11 @@ def check_gm(case):
 @st.composite
 def st_pdhg(draw):
     c = {"seed": draw(st.integers(0, 10 ** 6)), "n": draw(st.integers(1, 6)), "m": draw(st.integers(1, 8)),
-         "cplx": draw(st.booleans()), "A": draw(st.sampled_from(["spectrum", "spectrum", "correlated", "dyadic"])),
+         "cplx": draw(st.booleans()), "A": draw(st.sampled_from(["spectrum", "spectrum", "correlated", "dyadic", "identity"])),
          "smin": draw(st.sampled_from([1.0, 0.3, 0.1])),
+         # how A and A^H are handed to the solver when A is the identity (denoising-type problems): fresh arrays,
+         # the argument itself (lambda v: v), sigpy's Identity / Reshape operators (which return their input / a view)
+         "form": draw(st.sampled_from(["fresh", "alias", "alias", "Identity", "Reshape"])),
          "f": draw(st.sampled_from(["l2", "l2", "l2", "l1"])),
          "g": draw(st.sampled_from(["none", "l1", "l2", "box"])), "mu": draw(st.sampled_from([0.05, 0.25, 1.0])),
          "steps": draw(st.sampled_from(["scalar", "scalar", "array"])), "c": draw(st.sampled_from([1.0, 1.0, 0.8, 0.3])),
@@ -286,6 +291,16 @@ def check_pdhg(case):
     pf = proxfc if not case["func"] else (lambda a, v, _p=proxfc: _p(a, v))
     Aop = (lambda v: Am @ v)
     AHop = (lambda v: Am.conj().T @ v)
+    if case["A"] == "identity" and case.get("form", "fresh") != "fresh":
+        r.label("A-form:" + case["form"])
+        if case["form"] == "alias":
+            Aop = AHop = (lambda v: v)
+        elif case["form"] == "Identity":
+            Aop = sp.linop.Identity([n])
+            AHop = Aop.H
+        else:
+            Aop = sp.linop.Reshape([n], [n])
+            AHop = Aop.H
     tau_arg = tau.copy() if isinstance(tau, np.ndarray) else tau
     sig_arg = sigma.copy() if isinstance(sigma, np.ndarray) else sigma
     alg = sp.alg.PrimalDualHybridGradient(pf, pg, Aop, AHop, x, u, tau_arg, sig_arg, max_iter=case["K"], tol=0, **kw)
